@@ -89,9 +89,11 @@ impl<S: SeqSpec> Subject for Seq<S> {
 
     fn explore(&self, ctx: &mut Ctx) {
         let name = self.name();
-        let depth = self.0.depth(ctx.tier);
+        // ZV_DEPTH_BONUS (set by the driver for a property's thorough tier) deepens every subject by that many steps
+        let bonus: usize = std::env::var("ZV_DEPTH_BONUS").ok().and_then(|s| s.parse().ok()).unwrap_or(0);
+        let depth = self.0.depth(ctx.tier) + bonus;
         let scratch = ctx.scratch.clone();
-        ctx.stats(&name).bound = self.0.bound(ctx.tier);
+        ctx.stats(&name).bound = if bonus > 0 { format!("{} [+{} steps: depth {}]", self.0.bound(ctx.tier), bonus, depth) } else { self.0.bound(ctx.tier) };
         let owns_root = ctx.take_unit();
 
         // root
@@ -124,7 +126,8 @@ impl<S: SeqSpec> Subject for Seq<S> {
             for prefix in frontier.drain(..) {
                 if ctx.out_of_time() {
                     ctx.stats(&name).cap_hit = true;
-                    ctx.stats(&name).bound = format!("{} — TIME CAP HIT at level {} (levels < {} complete)", self.0.bound(ctx.tier), level, level);
+                    let b = ctx.stats(&name).bound.clone();
+                    ctx.stats(&name).bound = format!("{} — TIME CAP HIT at level {} (levels < {} complete)", b, level, level);
                     return;
                 }
                 ctx.journal(&name, &|| Self::witness(&prefix));
